@@ -2478,7 +2478,7 @@ int call_function_interactive (interactive_t * i, char *str) {
    */
   DEBUG_CHECK (!(sent->flags & V_FUNCTION), "input_to must be function pointer");
   funp = sent->function.f;
-  funp->hdr.ref++; /* by local variable funp */
+  push_funp (funp); /* held by a stack slot below the arguments, so that an error raised by the callback releases it too */
 
   args = sent->args;
   if (args)
@@ -2528,7 +2528,7 @@ int call_function_interactive (interactive_t * i, char *str) {
    *     foo(arg1, arg2, str, arg3, arg4) where str is the user input.
    */
   call_function_pointer (funp, num_arg + 1);
-  free_funp (funp); /* by local variable funp */
+  pop_stack (); /* the reference taken by push_funp() above */
   funp = 0;
   return 1;
 }				/* call_function_interactive() */
